@@ -1,7 +1,7 @@
 (* Proofs/PrioClass.v — the class NewZ of Proofs.MergePrio is decidable (a checker, proved sound), and executable comparison of
    priority images; used by the correspondence of the specification Spec.UpdateP.upd_p with Builder.build. *)
 From AY Require Import Model.Merge Model.Eq Proofs.NodeInd Proofs.FlagsLemmas Spec.Update Spec.UpdateP Proofs.MergePlain
-  Proofs.MergeNotNew Proofs.MergeGen Proofs.MergeMode Proofs.MergePrio Model.Loader Proofs.LoaderLemmas Proofs.PrioPath Proofs.PrioLoad.
+  Proofs.MergeNotNew Proofs.MergeGen Proofs.MergeMode Proofs.MergePrio Model.Loader Proofs.LoaderLemmas Proofs.PrioPath Proofs.PrioLoad Proofs.EvalPlain Model.Eval.
 
 Definition nz_b (f : flags) : bool :=
   match f_del f, f_new f, f_inew f with None, None, None => true | _, _, _ => false end.
@@ -103,4 +103,47 @@ Proof.
   destruct (forallb yz_b (y0 :: r) && forallb is_YM (y0 :: r))%bool eqn:E; [|discriminate].
   apply andb_true_iff in E. destruct E as [E1 E2]. intro H. inversion H; subst.
   apply flatten_prio_docs; [|exact E2]. rewrite forallb_forall in E1. apply Forall_forall. intros x Hx. apply yz_b_ok, E1, Hx.
+Qed.
+
+(* ---------- down to the evaluated config ---------- *)
+Lemma pvals_PPD p kv : pvals (PPD p kv) = PD (map (fun kc => (fst kc, pvals (snd kc))) kv).
+Proof. cbn [pvals]. f_equal. induction kv as [|[k c] r IH]; cbn; [reflexivity|]. now rewrite IH. Qed.
+
+Lemma pvals_perase : forall n, OldZ n -> pvals (perase n) = erase n.
+Proof.
+  induction n as [k f v|k f x ch IH] using node_ind'; intro H.
+  - inversion H; subst. reflexivity.
+  - inversion H as [|f0 x0 ch0 HO HF Hnd]; subst. rewrite perase_comp, pvals_PPD, erase_comp. cbn [is_listk]. f_equal.
+    unfold pch. rewrite map_map. cbn [fst snd].
+    clear H Hnd. induction IH as [|kc r Hkc Hr IHr]; cbn [map]; [reflexivity|]. inversion HF; subst. now rewrite Hkc, IHr.
+Qed.
+
+Lemma flatten_prio_oldz e s0 sts : Forall NewZ (s0 :: sts) -> forallb is_dictk (s0 :: sts) = true ->
+  exists n, flatten e (s0 :: sts) = Ok n /\ OldZ n /\ perase n = fold_left upd_p (map perase sts) (perase s0).
+Proof.
+  intros HF Hd. inversion HF as [|? ? Hp HF']; subst.
+  unfold flatten. rewrite Hd.
+  rewrite (premerge_plainT e s0 [] None (OldZ_PlainT _ (NewZ_oldz _ Hp))). cbn [bind].
+  rewrite require_all_new_newz by exact Hp.
+  destruct (fold_merge2_z e sts s0 (NewZ_oldz _ Hp) HF') as (n & E & Hn & En). eauto.
+Qed.
+
+(* the config BUILT from prioritised mapping documents (merge, check for placeholders, deep copy, evaluation) holds exactly the values
+   of the prioritised update of the documents *)
+Theorem docs_evaluated_config e pe fe c y0 ys : Forall yz (y0 :: ys) -> forallb is_YM (y0 :: ys) = true ->
+  exists n v st, flatten e (map (load_doc c) (y0 :: ys)) = Ok n /\ config pe fe n = Ok (v, st) /\
+                 vplain v = pvals (fold_left upd_p (map (yprio None) ys) (yprio None y0)).
+Proof.
+  intros HF HM.
+  assert (HN : Forall NewZ (map (load_doc c) (y0 :: ys))).
+  { clear HM. induction HF as [|y r Hy Hr IHr]; cbn [map]; [constructor|]. constructor; [apply (load_doc_newz c y Hy)|exact IHr]. }
+  assert (HD : forallb is_dictk (map (load_doc c) (y0 :: ys)) = true).
+  { clear HF HN. induction (y0 :: ys) as [|y r IHr]; [reflexivity|]. cbn [forallb map] in *. apply andb_true_iff in HM. destruct HM as [A B].
+    now rewrite (MergeGen.load_doc_dict c y A), IHr. }
+  cbn [map] in HN, HD. destruct (flatten_prio_oldz e _ _ HN HD) as (n & E & Hn & En).
+  destruct (config_plain pe fe n (OldZ_PlainT _ Hn)) as (v & st & Ec & Ev).
+  exists n, v, st. split; [exact E|]. split; [exact Ec|].
+  rewrite Ev, <- (pvals_perase n Hn), En. f_equal.
+  inversion HF as [|? ? H0 HF']; subst. rewrite (proj2 (load_doc_newz c y0 H0)). f_equal.
+  rewrite map_map. clear - HF'. induction HF' as [|y r Hy Hr IHr]; cbn [map]; [reflexivity|]. now rewrite (proj2 (load_doc_newz c y Hy)), IHr.
 Qed.
